@@ -16,10 +16,11 @@ COMMON = ["Go toolchain, rapid v1.3.0 and mp4ff (used for independent parsing) a
 
 prop("C20",
      rule="(1) rapid-generated operation sequences Inc/Count/EndTime with time steps clustered around the interval boundary "
-          "(-2..+2 ns, multiples) over 1-5 addresses (IPv4/IPv6/garbage) and 0-3 white-list CIDR blocks, judged against a map-per-interval "
+          "(-2..+2 ns, multiples; also stamps slightly before the previous one) over 1-5 addresses (IPv4/IPv6/garbage) and 0-3 white-list CIDR blocks, judged against a map-per-interval "
           "reference model; (2) the limiter middleware driven by 2-12 goroutines (RemoteAddr and X-Forwarded-For), judged by the per-address "
           "header-counter multiset {1..k}, status and pass-on; (3) readers of Count/EndTime and /reqcount against a writer that restarts the "
-          "interval, under the race detector. Non-trivial = a sequence crossing >=1 interval boundary with >=2 addresses and one over quota, "
+          "interval, under the race detector; (4) the real server with a quota: 1-3 addresses (direct and forwarded) alternating between /livesim2 and "
+          "/vod share one quota and one counter. Non-trivial = a sequence crossing >=1 interval boundary with >=2 addresses and one over quota, "
           "a concurrent middleware case with >=2 addresses exceeding the quota, or a race round; distinct by hash of the case.",
      race=True, quick=dict(shards=1, timeout=300), thorough=dict(shards=8, timeout=900, pct=1500),
      assumptions=COMMON + ["the interval restarts at the first request after it elapsed (documented by ResetTime/EndTime); the single instant "
@@ -231,7 +232,9 @@ prop("C19",
      rule="rapid draws 1-4 channels x 2-8 tracks (video master, further video, audio, wvtt text), 2-6 segments per track, Streams() or per-segment "
           "URLs, with/without Basic auth and per-representation configuration. Per case a sequential round-robin reference run, then 2-6 "
           "concurrent runs on fresh receivers under the race detector: all first uploads (init segments) released by one barrier from separate "
-          "goroutines, then per segment number all tracks of all channels at once (as the sender does). Oracle: no race report and no fatal "
+          "goroutines, then per segment number all tracks of all channels at once (as the sender does); optionally channels whose decode times are "
+          "shifted against their numbers, and a phase in which init segments are re-sent on the started channels together with media. Oracle: every "
+          "concurrent phase ends within 20 s, no race report and no fatal "
           "(driver), every upload saw the same channel object and every track is registered (hook VerifChannelState), every 200-answered "
           "upload stored under its own track with its own bytes, the final MPD lists every track and, reduced to what must not depend on the "
           "arrival order (per representation: kind, timescale, numbers, (t,d)), equals the sequential run's. Every case starts >= 2 tracks of "
